@@ -179,3 +179,27 @@ def gen_expr(rng, ids, depth=3, size=32):
         base = gen_expr(rng, ids, depth - 1)
         return ['M', base, 32, None, False]
     return ['O', '==', [gen_expr(rng, ids, depth - 1), gen_expr(rng, ids, depth - 1)]]
+
+# ---------------------------------------------------------- generated lines
+# mnemonic x operand-text pools: different mnemonics meet the SAME operand text
+ASM_MNEMO1 = ['inc', 'dec', 'push', 'pop', 'fld', 'fstp', 'neg', 'not', 'prefetcht0', 'prefetchw', 'call', 'jmp', 'fild', 'sete']
+ASM_MNEMO2 = ['mov', 'lea', 'add', 'cmp', 'xor', 'test', 'xchg', 'movzx', 'imul', 'and', 'sub', 'or']
+ASM_MEMTXT = ['[esi+12]', '[ebx+64]', 'DWORD PTR [ebx+4]', 'WORD PTR [ebx+4]', 'BYTE PTR [ebx+4]', 'WORD PTR 68', 'DWORD PTR 68', '[eax]',
+              '[esp+16+eax*4]', 'DWORD PTR [ebp-4]', '[ebx+ecx*4]', 'QWORD PTR [esp+8]', '[edx+eax]', 'dword ptr gs:20', 'toto[eax+8]', '8[ebp]']
+ASM_REGTXT = ['eax', 'ecx', 'edx', 'ebx', 'ax', 'cx', 'al', 'cl', 'ah', 'esi', 'edi']
+ASM_IMMTXT = ['0', '1', '5', '-1', '255', '0x1000', '66']
+
+def gen_asm_line(rng, memtxt=None):
+    ASM_MEMTXT_ = memtxt or ASM_MEMTXT
+    k = rng.random()
+    if k < 0.35:
+        return '%s %s' % (rng.choice(ASM_MNEMO1), rng.choice(ASM_MEMTXT_ if rng.random() < 0.8 else ASM_REGTXT))
+    m = rng.choice(ASM_MNEMO2)
+    y = rng.random()
+    if y < 0.4:
+        return '%s %s, %s' % (m, rng.choice(ASM_REGTXT), rng.choice(ASM_MEMTXT_))
+    if y < 0.7:
+        return '%s %s, %s' % (m, rng.choice(ASM_MEMTXT_), rng.choice(ASM_REGTXT))
+    if y < 0.85:
+        return '%s %s, %s' % (m, rng.choice(ASM_MEMTXT_), rng.choice(ASM_IMMTXT))
+    return '%s %s, %s' % (m, rng.choice(ASM_REGTXT), rng.choice(ASM_REGTXT + ASM_IMMTXT))
